@@ -399,14 +399,19 @@ def cases(tier, seed):
                "sources": [SOURCES[int(rng.integers(0, 4))] for _ in range(ng)], "sseed": int(rng.integers(0, 10**6))}
 
 
+F32_SOURCE = [False]  # the current case's source carries single-precision coordinates
+
+
 def make_factory(source, m, sseed):
     U = ux.ux()
+    F32_SOURCE[0] = False
     rng = np.random.default_rng(sseed)
     if source == "mpas" and ref.is_manifold(m.faces):
         ds, _ = dialects.mpas_dataset(m, rng, force={"optional_tables": True})
         return lambda: U.open_grid(ds.copy(deep=True))
     if source == "ugrid":
-        ds, _ = dialects.ugrid_dataset(m, rng, force={"transposed": False})
+        ds, info = dialects.ugrid_dataset(m, rng, force={"transposed": False})
+        F32_SOURCE[0] = info["dial"].get("coord_dtype") == "float32"
         return lambda: U.open_grid(ds.copy(deep=True))
     if source == "face_vertices":
         src, info = dialects.face_vertices(m, rng, force={"container": "ndarray"})
@@ -651,7 +656,9 @@ def run_case(ctx, case):
         mA, mB = gen.build(case["mesh"]), gen.build(case["mesh_b"])
         if jit_off and (mA.n_face > 40 or mB.n_face > 40):
             return
-        fA, fB = make_factory(case["source"], mA, case["sseed"]), make_factory(case["source_b"], mB, case["sseed"] + 1)
+        fA = make_factory(case["source"], mA, case["sseed"])
+        f32_a = bool(F32_SOURCE[0])
+        fB = make_factory(case["source_b"], mB, case["sseed"] + 1)
         pairs = case["pairs"]
         if jit_off:
             pairs = pairs[:6]
@@ -679,7 +686,7 @@ def run_case(ctx, case):
             ctx.observe("pairs_run")
             ctx.note_set("ordered_pairs", first.split(":")[0] + ">" + second.split(":")[0])
             ctx.mark_nontrivial((first, second, cross))
-        ctx.blobs.setdefault("fp", {})[core.jhash([case["mesh"], case["source"], case["sseed"]])] = {k: v for k, v in fps.items()}
+        ctx.blobs.setdefault("fp", {})[core.jhash([case["mesh"], case["source"], case["sseed"]])] = dict({k: v for k, v in fps.items()}, **({"__f32__": [1.0]} if f32_a else {}))
         if pairs:
             ctx.sample({"kind": "pairs", "source": case["source"], "mesh": case["mesh"], "first_pairs": pairs[:3]}, limit=2)
         return
@@ -707,7 +714,7 @@ def run_case(ctx, case):
 
 
 def cross_modes(by_mode):
-    """JIT on vs JIT off: fingerprints of the same observation on the same source must agree (rtol 1e-9)."""
+    """JIT on vs JIT off: fingerprints of the same observation on the same source must agree (rtol 1e-9; 1e-6 for float32 sources)."""
     on = {}
     off = {}
     for mode, blobs in by_mode.items():
@@ -717,11 +724,15 @@ def cross_modes(by_mode):
                 tgt.setdefault(ck, {}).update(fps)
     n, viol = 0, []
     for ck, fps in off.items():
+        # single-precision coordinates: compiled and interpreted code promote float32 operands differently - float32 rounding
+        rt = 1e-6 if "__f32__" in fps else 1e-9
         for op, fp in fps.items():
+            if op == "__f32__":
+                continue
             if ck in on and op in on[ck]:
                 n += 1
                 a, b = np.array(on[ck][op], dtype=float), np.array(fp, dtype=float)
-                if a.shape != b.shape or not np.allclose(a, b, rtol=1e-9, atol=1e-10):
+                if a.shape != b.shape or not np.allclose(a, b, rtol=rt, atol=rt / 10):
                     viol.append({"clause": "cross_mode", "sig": {"op": op.split(":")[0] + ":" + ":".join(op.split(":")[1:3])}, "case": {"case_key": ck, "op": op},
                                  "detail": {"jit_on": a.tolist(), "jit_off": b.tolist(), "op": op}, "seed": 0, "shard": -1})
     return n, viol
